@@ -38,6 +38,7 @@ var (
 	dsaEnt  *openpgp.Entity // DSA/ElGamal Test Key 1: DSA sign + ElGamal encryption subkey
 	ecEnt   *openpgp.Entity // P-256 test key: ECDSA sign
 	ring    openpgp.EntityList
+	rawKeys = map[string][]byte{}
 )
 
 func root() string {
@@ -67,6 +68,7 @@ func loadKeys() {
 			p := strings.Split(sc.Text(), "\t")
 			if len(p) == 3 {
 				by[p[0]] = hx.UnHex(p[2])
+				rawKeys[p[0]] = by[p[0]]
 			}
 		}
 		read := func(n string) openpgp.EntityList {
@@ -779,6 +781,10 @@ func gpgSetup() {
 		if cmd.Run() != nil {
 			return
 		}
+		// Test Key 1's secret key (unprotected) so that gpg itself can sign
+		cmd = exec.Command("gpg", "--batch", "--quiet", "--homedir", home, "--pinentry-mode", "loopback", "--passphrase", "passphrase", "--import")
+		cmd.Stdin = bytes.NewReader(rawKeys["read.testKeys1And2PrivateHex"])
+		cmd.Run()
 		gpgHome = home
 	})
 }
@@ -801,7 +807,7 @@ func gpgOp(o hx.Op) string {
 	}
 	msg := hx.NewRand(o.U64("seed")).Bytes(o.Int("n"))
 	switch o.Str("dir") {
-	case "go2gpg-sym", "go2gpg-sign":
+	case "go2gpg-sym", "go2gpg-sign", "go2gpg-pk":
 		s := specOf(o, msg)
 		d, err := produce(s)
 		if err != nil {
@@ -814,9 +820,28 @@ func gpgOp(o hx.Op) string {
 			}
 			return "gpg=ok"
 		}
-		out, err := gpgRun(d, "--decrypt") // verifies and prints the signed data
+		// mode=sign: verifies and prints the signed data; mode=pk: decrypts with Test Key 1's secret key (and verifies if signed)
+		out, err := gpgRun(d, "--passphrase", "", "--decrypt")
 		if err != nil || !bytes.Equal(out, msg) {
 			return "gpg=bad"
+		}
+		return "gpg=ok"
+	case "gpg2go-pk", "gpg2go-sign", "gpg2go-signenc":
+		args := []string{"--compress-algo", map[int]string{0: "none", 1: "zip", 2: "zlib"}[o.Int("comp")], "--digest-algo", map[int]string{2: "SHA1", 8: "SHA256", 10: "SHA512"}[o.Int("hash")], "-o", "-"}
+		if o.Str("dir") != "gpg2go-sign" {
+			rcpt := map[string]string{"rsa": "A34D7E18C20C31BB", "elg": "33AF447CCD759B09"}[o.Str("to")]
+			args = append(args, "--cipher-algo", map[int]string{3: "CAST5", 7: "AES", 9: "AES256"}[o.Int("cipher")], "-r", rcpt, "--encrypt")
+		}
+		if o.Str("dir") != "gpg2go-pk" {
+			args = append(args, "-u", "A34D7E18C20C31BB", "--passphrase", "", "--sign")
+		}
+		d, err := gpgRun(msg, args...)
+		if err != nil {
+			return "gpg=failed-to-produce"
+		}
+		res, body := readBack(d, o.Str("dir") != "gpg2go-pk")
+		if res != "ok" || !bytes.Equal(body, msg) {
+			return "gpg=bad:" + res
 		}
 		return "gpg=ok"
 	case "gpg2go-sym":
@@ -917,6 +942,7 @@ func genMdc(g *hx.Gen) {
 	for i, n := 0, r.Range(0, 12); i < n; i++ {
 		bufs = append(bufs, r.PickInt(0, 1, 5, 21, 22, 23, 24, 44, 100, 1024, 4096, r.Range(0, 60)))
 	}
+	g.Stat("mdc")
 	g.Emit("mdc pre=%s data=%s under=%s bufs=%s", hx.Hex(pre), hx.Hex(data), hx.JoinInts(under), hx.JoinInts(bufs))
 }
 
@@ -989,12 +1015,13 @@ func genTamper1(g *hx.Gen) {
 
 func gen(g *hx.Gen) {
 	loadKeys()
-	n := g.Count(2600, 60000)
+	n := g.Count(2600, 40000)
 	r := g.R
 	for i := 0; i < n; i++ {
 		switch k := r.Intn(40); {
 		case k < 4:
 			ln := r.PickInt(0, 1, 191, 192, 193, 8383, 8384, 8385, 65535, 65536, 1<<24, 1<<31-1, 1<<32-1, r.Range(0, 9000), int(r.U32()))
+			g.Stat("hdrrt")
 			g.Emit("hdrrt tag=%d len=%d tail=%s", r.Intn(64), ln, hx.Hex(r.Bytes(r.Range(0, 4))))
 		case k < 10:
 			nn := msgLen(r, g)
@@ -1007,6 +1034,7 @@ func gen(g *hx.Gen) {
 			genMdc(g)
 		case k < 19:
 			d := r.Bytes(r.Range(0, 200))
+			g.Stat("mdcw")
 			g.Emit("mdcw pre=%s ch=%s data=%s", hx.Hex(r.Bytes(r.PickInt(10, 18))), hx.JoinInts(chunking(r, len(d))), hx.Hex(d))
 		case k < 24:
 			d := textMsg(r)
@@ -1039,7 +1067,18 @@ func gen(g *hx.Gen) {
 			cipher, comp := r.PickInt(2, 3, 7, 8, 9), r.PickInt(0, 1, 2)
 			nn := r.PickInt(0, 1, 1000, r.Range(0, 100000))
 			g.Stat("gpg")
-			switch r.Intn(3) {
+			switch r.Intn(6) {
+			case 5:
+				signer := r.PickInt(0, 1, 17)
+				sg := 0
+				if signer != 0 {
+					sg = 1
+				}
+				g.Emit("gpg dir=go2gpg-pk mode=pk rcpt=rsa nrcpt=1 signer=%d signed=%d cipher=%d bs=16 comp=0 hash=8 bin=1 name=- namelen=0 ch=%s n=%d seed=%d", signer, sg, r.PickInt(7, 9, 3), hx.JoinInts(chunking(r, nn)), nn, r.U64()>>1)
+			case 3:
+				g.Emit("gpg dir=%s to=%s cipher=%d comp=%d hash=%d n=%d seed=%d", r.PickStr("gpg2go-pk", "gpg2go-signenc"), r.PickStr("rsa", "elg"), r.PickInt(3, 7, 9), comp, r.PickInt(2, 8, 10), nn, r.U64()>>1)
+			case 4:
+				g.Emit("gpg dir=gpg2go-sign to=- cipher=7 comp=%d hash=%d n=%d seed=%d", comp, r.PickInt(2, 8, 10), nn, r.U64()>>1)
 			case 0:
 				bs := 16
 				if cipher < 4 {
@@ -1065,6 +1104,7 @@ func gen(g *hx.Gen) {
 func main() {
 	hx.Main(hx.Harness{Gen: gen, Exec: run, OpTimeout: 120 * time.Second})
 	if gpgHome != "" {
+		exec.Command("gpgconf", "--homedir", gpgHome, "--kill", "gpg-agent").Run()
 		os.RemoveAll(gpgHome)
 	}
 }
